@@ -32,7 +32,7 @@ Proof.
   assert (D := drop_while_len isspace l). destruct (drop_while isspace l) as [|c r] eqn:E; [cbn; lia|].
   assert (K : (length (c :: r) <= length l)%nat) by exact D.
   destruct (Nat.eq_dec c 35) as [->|Hn].
-  - specialize (IH (skip_line r)). assert (S := skip_line_len r). cbn [length] in K. lia.
+  - rewrite Nat.eqb_refl. specialize (IH (skip_line r)). assert (S := skip_line_len r). cbn [length] in K. lia.
   - destruct c as [|c]; [exact K|]. do 34 (destruct c as [|c]; [exact K|]). destruct c; [congruence|exact K].
 Qed.
 Lemma skip_comments_mono s : bad (skip_comments s) = bad s /\ (slen (skip_comments s) <= slen s)%nat.
